@@ -420,6 +420,15 @@ func genRandom(e *emitter, r *hc.Rand, n int) {
 				// re-register a node id with a new object: pipelines registered before keep the old one
 				id := 1 + r.Intn(6)
 				ops = append(ops, Op{K: "regnode", ID: id, Ty: idType[id]})
+				// ... and a pipeline registered again with the very same definition must be linked with the new object
+				if r.Chance(1, 2) {
+					for k := len(ops) - 2; k >= 0; k-- {
+						if ops[k].K == "regpipe" {
+							ops = append(ops, ops[k])
+							break
+						}
+					}
+				}
 			case x < 76:
 				ops = append(ops, Op{K: "rmnode", ID: 1 + r.Intn(6)})
 			case x < 80:
